@@ -313,6 +313,13 @@ func judgeHTTP(w *world, resp *opdrv.Resp) httpVerdict {
 		v.class, v.what = "two-responses", fmt.Sprintf("WriteHeader called %d times (first %d, then %v)", resp.WriteHeaderCalls, st, resp.SuperfluousCodes)
 		return v
 	}
+	for _, c := range resp.Codes {
+		// the literal codes handed to WriteHeader: net/http's server panics on one outside 100..999, the recorder does not
+		if c < 100 || c > 599 {
+			v.class, v.what = "bad-status", fmt.Sprintf("WriteHeader(%d)", c)
+			return v
+		}
+	}
 	if st == 0 {
 		// a handler that returns without writing is answered 200 with an empty body by net/http: well-formed
 		v.outcome = "nothing-written"
